@@ -372,6 +372,7 @@ func runC07(c *Ctx) {
 
 	// (4) date form
 	c.checkDateForm(rel, E, LOC, tsForm)
+	c.checkIDParse(rel, E)
 }
 
 func (c *Ctx) checkDateForm(rel, E, LOC string, tsForm linForm) {
@@ -650,4 +651,72 @@ func factsImplyGE0(facts []Fact, target linForm) bool {
 		}
 	}
 	return false
+}
+
+// checkIDParse: the two convenience splitters are IDFields plus the epoch: IDParse returns (time+epoch, node, step)
+// of IDFields(id); IDParseEx turns IDParse's millisecond stamp into time.Unix(ms/1000, (ms%1000)*1e6) and passes
+// node and step through. Recombining what they return therefore gives the id back, as for IDFields.
+func (c *Ctx) checkIDParse(rel, E string) {
+	noInl := func(*ssa.Function, int) bool { return false }
+	if fn := c.mustFn(rel, "IDParse"); fn != nil {
+		ts, _ := c.Trace(fn, TraceConfig{Inline: noInl})
+		good, n := true, 0
+		for _, t := range ts {
+			if t.End != EndReturn || len(t.Ret) != 3 {
+				continue
+			}
+			n++
+			var f *Event
+			for _, e := range t.Events {
+				if e.Kind == EvCall && e.Callee != nil && e.Callee.Name() == "IDFields" && len(e.Args) == 1 && e.Args[0].Key() == "$"+fn.Params[0].Name() {
+					f = e
+				}
+			}
+			if f == nil || f.Res.Kind != KTuple || len(f.Res.Args) != 3 {
+				good = false
+				continue
+			}
+			want := lf(f.Res.Args[0]).add(linForm{coef: map[string]*big.Int{E: big.NewInt(1)}, c: new(big.Int)}, 1)
+			if !lf(t.Ret[0]).equal(want) || t.Ret[1].Key() != f.Res.Args[1].Key() || t.Ret[2].Key() != f.Res.Args[2].Key() {
+				good = false
+			}
+		}
+		c.check(good && n > 0, "C07.fields", "IDParse", fn.Pos(), "IDFields(id) with the epoch added to the timestamp", "IDParse is not (IDFields(id).time + epoch, node, step): splitting with it and recombining no longer gives the id back")
+	}
+	if fn := c.mustFn(rel, "IDParseEx"); fn != nil {
+		ts, _ := c.Trace(fn, TraceConfig{Inline: noInl})
+		good, n := true, 0
+		for _, t := range ts {
+			if t.End != EndReturn || len(t.Ret) != 3 {
+				continue
+			}
+			n++
+			var p, u *Event
+			for _, e := range t.Events {
+				if e.Kind == EvCall && e.Callee != nil && e.Callee.Name() == "IDParse" && len(e.Args) == 1 && e.Args[0].Key() == "$"+fn.Params[0].Name() {
+					p = e
+				}
+				if e.Kind == EvCall && e.callName() == "time.Unix" {
+					u = e
+				}
+			}
+			if p == nil || u == nil || p.Res.Kind != KTuple || len(u.Args) != 2 {
+				good = false
+				continue
+			}
+			ms := p.Res.Args[0].Key()
+			sec, nsec := u.Args[0], u.Args[1]
+			secOK := sec.Kind == KBin && sec.Op == token.QUO && sec.Args[0].Key() == ms && isIntConst(sec.Args[1], 1000)
+			nsOK := nsec.Kind == KBin && nsec.Op == token.MUL && isIntConst(nsec.Args[1], 1000000) && nsec.Args[0].Kind == KBin && nsec.Args[0].Op == token.REM && nsec.Args[0].Args[0].Key() == ms && isIntConst(nsec.Args[0].Args[1], 1000)
+			if !secOK || !nsOK || t.Ret[1].Key() != p.Res.Args[1].Key() || t.Ret[2].Key() != p.Res.Args[2].Key() {
+				good = false
+			}
+		}
+		c.check(good && n > 0, "C07.fields", "IDParseEx", fn.Pos(), "time.Unix(ms/1000, (ms%1000)*1e6) of IDParse", "IDParseEx does not convert IDParse's millisecond stamp exactly (seconds = ms/1000, nanoseconds = (ms%1000)*1e6) or does not pass node and step through")
+	}
+}
+
+func isIntConst(s *Sym, v int64) bool {
+	k, ok := s.intConst()
+	return ok && k == v
 }
